@@ -136,12 +136,79 @@ func RunSched(p *SchedProg) (violation string, steps int) {
 		return schedAddr(p)
 	case "sched-spread":
 		return schedSpread(p)
+	case "sched-rrempty":
+		return schedRREmpty(p)
 	}
 	return "", 0
 }
 
+// schedRREmpty: ROUND_ROBIN, minSize = maxSize = 1. The only channel reports SHUTDOWN (the pool is empty). A BIND
+// call through the picker published before meets the empty pool while a resolver update re-creates the pool and the new
+// connection becomes READY. Invariant (C03): the pool never holds more than maxSize channels.
+func schedRREmpty(p *SchedProg) (string, int) {
+	e, err := newPoolEnv(fmt.Sprintf(`{"channelPool":{"minSize":1,"maxSize":1,"bindPickStrategy":"ROUND_ROBIN"},%s}`, schedMethods), 1, false)
+	if err != nil {
+		return "C17|" + err.Error(), 0
+	}
+	e.bringUpAll()
+	pk := e.readyPickers()
+	if len(pk) == 0 {
+		return "", 0
+	}
+	old := pk[len(pk)-1]
+	e.cc.mu.Lock()
+	first := e.cc.all[0]
+	e.cc.mu.Unlock()
+	e.rep(first, connectivity.Shutdown)
+	live := func() int {
+		e.cc.mu.Lock()
+		defer e.cc.mu.Unlock()
+		n := 0
+		for _, sc := range e.cc.all {
+			if sc != first && !sc.refresh && e.cc.removed[sc] == 0 {
+				n++
+			}
+		}
+		return n
+	}
+	s := NewSched()
+	npick := 1 + p.Extra%2
+	for g := 0; g < npick; g++ {
+		s.Go(fmt.Sprintf("bind-pick-%d", g), func() {
+			ctx, cancel := context.WithTimeout(ictx(context.Background(), &cmsg{}, &cmsg{Key: "k"}), 50*time.Millisecond)
+			defer cancel()
+			if r, err := old.Pick(balancer.PickInfo{Ctx: ctx, FullMethodName: "/bind"}); err == nil && r.Done != nil {
+				r.Done(balancer.DoneInfo{Err: fmt.Errorf("aborted")})
+			}
+		})
+	}
+	s.Go("resolver-update", func() {
+		e.b.UpdateClientConnState(balancer.ClientConnState{ResolverState: resolver.State{Addresses: []resolver.Address{{Addr: "A"}}}})
+		for sc := e.popPending(); sc != nil; sc = e.popPending() {
+			if (p.Extra/2)%2 == 0 {
+				e.rep(sc, connectivity.Connecting)
+			}
+			e.rep(sc, connectivity.Ready)
+		}
+	})
+	res, v := p.run(s, 600, func() string {
+		if n := live(); n > 1 {
+			return fmt.Sprintf("C03|the pool holds %d channels, maxSize is 1: a round-robin BIND call that met the empty pool added a channel after a resolver update had re-created the pool", n)
+		}
+		return violationOf(e.cc)
+	})
+	p.Trace = s.Trace
+	s.Drain()
+	if v == "" {
+		if n := live(); n > 1 {
+			v = fmt.Sprintf("C03|the pool holds %d channels, maxSize is 1: a round-robin BIND call that met the empty pool added a channel after a resolver update had re-created the pool", n)
+		}
+	}
+	return judgeSched(res, v), res.Steps
+}
+
 // schedSpread: n READY channels with equal load (0, or the watermark: a saturated pool at maxSize), no completions;
-// NPick tasks place plain calls through ONE picker. Choosing the least loaded channel and counting the call there is one
+// NPick tasks place plain calls through one picker, or alternately through two picker objects that know the same READY channels (the one published before and the one published after a flap). Choosing the least loaded channel and counting the call there is one
 // step (C02: "every placement adds one", "minimal among those channels"): from equal loads, after any number of
 // placements the per-channel counts differ by at most one. Two picks that overlap must not see the same minimum.
 func schedSpread(p *SchedProg) (string, int) {
@@ -160,10 +227,28 @@ func schedSpread(p *SchedProg) (string, int) {
 		return "", 0
 	}
 	cur := pk[len(pk)-1]
+	prev := cur
+	if (p.Extra/12)%2 == 1 {
+		// two picker objects with the same READY channels: a channel flaps, gRPC keeps calling the picker published before
+		// the flap for the calls that loaded it earlier
+		e.cc.mu.Lock()
+		first := e.cc.all[0]
+		e.cc.mu.Unlock()
+		e.rep(first, connectivity.TransientFailure)
+		e.rep(first, connectivity.Ready)
+		if pk2 := e.readyPickers(); len(pk2) > len(pk) {
+			cur = pk2[len(pk2)-1]
+		}
+	}
 	counts := map[*csc]int{}
 	var cmu sync.Mutex
+	var turn atomic.Int64
 	place := func() error {
-		r, err := cur.Pick(balancer.PickInfo{Ctx: context.Background(), FullMethodName: "/plain"})
+		pkr := cur
+		if turn.Add(1)%2 == 0 {
+			pkr = prev
+		}
+		r, err := pkr.Pick(balancer.PickInfo{Ctx: context.Background(), FullMethodName: "/plain"})
 		if err != nil {
 			return err
 		}
